@@ -59,7 +59,8 @@ where
             BasicObject::Expression(expr) => self.push_to_data_block(BasicData::Expression(expr)),
             BasicObject::External(ext) => self.push_to_data_block(BasicData::External(ext)),
             BasicObject::CharList(str) => {
-                let list_index = self.push_to_data_block(BasicData::CharList(str.len()))?;
+                // the header counts characters, one cell each, not bytes
+                let list_index = self.push_to_data_block(BasicData::CharList(str.chars().count()))?;
                 for c in str.chars() {
                     self.push_to_data_block(BasicData::Char(c))?;
                 }
